@@ -75,10 +75,14 @@ class AwareDT(datetime.datetime):
 NAME_POOL = {}
 
 
+FIRST_SEEN = {}        # program -> size of the pool when the program ran for the first time in this process
+
+
 def _remember_name(q, prog):
-    # remembered with the program it came from: a program never sees its own names (two runs of one program make the same choices)
-    if isinstance(q, QualifiedName) and q.uri not in NAME_POOL:
-        NAME_POOL[q.uri] = (q, prog)
+    # remembered with the program it came from and its position: a program sees neither its own names nor names that joined the pool
+    # after its first run, so every run of one program in this process makes the same choices (the pool only grows, up to a cap)
+    if isinstance(q, QualifiedName) and q.uri not in NAME_POOL and len(NAME_POOL) < 20000:
+        NAME_POOL[q.uri] = (q, prog, len(NAME_POOL))
 
 
 def _pick(text, modulo):
@@ -124,7 +128,8 @@ class State:
                 return QualifiedName(ns, local)        # minted directly: another object than ns[local] hands out
             if 12 <= how <= 17:
                 old = NAME_POOL.get(spec["ns"] + local)
-                if old is not None and old[1] != getattr(self, "prog", None) and getattr(self, "use_pool", True):
+                if old is not None and old[1] != getattr(self, "prog", None) and getattr(self, "use_pool", True) \
+                        and old[2] < FIRST_SEEN.get(getattr(self, "prog", None), 0):
                     return old[0]                           # the same name as an earlier (possibly dead) document resolved it
             if how == 10:
                 return SubQN(ns, local)
@@ -389,8 +394,10 @@ def run(ops, on_step=None, stop_on_error=False, style_xor=0, use_pool=True, prog
     st.use_pool = use_pool       # False: no name objects of earlier documents (what a fresh process would do)
     import zlib
     st.prog = prog if prog is not None else zlib.crc32(repr(ops).encode("utf-8"))     # a variant of a program passes its origin's
-    if len(NAME_POOL) > 3000:
-        NAME_POOL.clear()
+    if st.prog not in FIRST_SEEN:
+        if len(FIRST_SEEN) > 200000:
+            FIRST_SEEN.clear()
+        FIRST_SEEN[st.prog] = len(NAME_POOL)
     for i, op in enumerate(ops):
         res = None
         try:
